@@ -57,6 +57,7 @@ static int g_gate = 0;
 static unsigned long g_delay_seed = 0, g_delay_max = 0;
 static pthread_mutex_t g_mu = PTHREAD_MUTEX_INITIALIZER;
 static char *g_fdpath[MAXFD];
+static unsigned char g_rd_seen[MAXFD]; /* gate only the first read / readdir per open fd */
 static int g_inited = 0;
 static char g_argv1[256];
 
@@ -118,6 +119,7 @@ static void setfd(int fd, const char *abs) {
   pthread_mutex_lock(&g_mu);
   free(g_fdpath[fd]);
   g_fdpath[fd] = abs ? strdup(abs) : NULL;
+  g_rd_seen[fd] = 0;
   pthread_mutex_unlock(&g_mu);
 }
 static const char *fdp(int fd) {
@@ -425,7 +427,8 @@ ssize_t read(int fd, void *buf, size_t n) {
     errno = e;
     return r;
   }
-  if (p && GATE_ON(p)) {
+  if (p && GATE_ON(p) && fd < MAXFD && !g_rd_seen[fd]) {
+    g_rd_seen[fd] = 1;
     unsigned long gs = gate_req("read", p, NULL);
     ssize_t r = real_read(fd, buf, n);
     int e = errno;
@@ -791,7 +794,8 @@ struct dirent64 *readdir64(DIR *d) {
   REAL(readdir64);
   if (!g_active || !g_gate) return real_readdir64(d);
   const char *p = fdp(dirfd(d));
-  if (p && under_root(p)) {
+  if (p && under_root(p) && dirfd(d) < MAXFD && !g_rd_seen[dirfd(d)]) {
+    g_rd_seen[dirfd(d)] = 1;
     unsigned long gs = gate_req("readdir", p, NULL);
     int saved = errno;
     struct dirent64 *r = real_readdir64(d);
